@@ -18,3 +18,12 @@ Lemma src_be_exit_skeleton : SrcFacts.sk_be_exit = [
     "EXPR _cleanup_invalidated_thread_contexts()";
     "EXPR _cleanup_invalidated_loggers()"].
 Proof. vm_compute. reflexivity. Qed.
+
+(* UnboundedSPSCQueue::empty() as the backend's "is everything drained?" question sees it: the consumer's node is
+   empty AND it has no successor - the model's q_empty (BEDefs: emptiness of the whole chain, weakened only by the
+   spurious "not empty" of a drained node whose successor is still unvisited, u_hint). Without the second conjunct
+   a drained node in front of a node that holds records would read as "empty" and _exit would leave early. *)
+Lemma src_uq_empty_checks_successor : SrcFacts.sk_uq_empty = [
+    "RET return _consumer->bounded_queue.empty() && (_consumer->next.load(std::memory_order_relaxed) == nullptr)";
+    "  ATOMIC _consumer->next load [memory_order_relaxed]"].
+Proof. vm_compute. reflexivity. Qed.
